@@ -9,9 +9,11 @@ Import ListNotations.
 
 Record vfile := mkV {
   vf_path : N;
-  vf_imports : list (N * bool * bool);   (* f.Imports(): path, IsPublic, IsWeak, in declaration order *)
+  vf_imports : list (N * bool);          (* f.Imports(): path, IsPublic, in declaration order *)
   vf_names : list N;                     (* keys of the descriptor map of the file *)
-  vf_exts : list (N * Z * N)             (* extendee, tag, extension name; order of findExtension *)
+  vf_exts : list (N * Z * N);            (* extendee, tag, extension name; order of findExtension *)
+  vf_weak : list N                       (* paths of the imports whose IsWeak is set (import weak, or weak_dependency of a
+                                            descriptor proto, where a public import can be weak too); the walk never reads it *)
 }.
 
 Definition graph := list vfile.
@@ -45,10 +47,10 @@ Section ResolveInFile.
         match fn f with
         | Some e => VFound (vf_path f) e                              (* found it *)
         | None =>
-          (fix imports_loop (imps : list (N * bool * bool)) : vres :=
+          (fix imports_loop (imps : list (N * bool)) : vres :=
              match imps with
              | [] => VNotFound
-             | (p, isPublic, _) :: r =>                                (* IsWeak is never read by the walk *)
+             | (p, isPublic) :: r =>
                if publicImportsOnly && negb isPublic then imports_loop r
                else match find_file G p with
                     | None => VPanic
@@ -85,12 +87,12 @@ Definition resolver_find (G : graph) (f : vfile) (q : query) : vres :=
 
 (* ---- specification: the visible set ----
    visible f = the file itself, its direct imports (plain, public or weak alike), and every file
-   reachable from a direct import through public imports only (a public import counts whatever its
-   weak flag says; descriptors can carry both flags) *)
+   reachable from a direct import through public imports only (a public import counts whatever
+   vf_weak says about it) *)
 Definition direct_import (G : graph) (a d : N) : Prop :=
-  exists f pub weak, find_file G a = Some f /\ In (d, pub, weak) (vf_imports f).
+  exists f pub, find_file G a = Some f /\ In (d, pub) (vf_imports f).
 Definition pub_edge (G : graph) (a b : N) : Prop :=
-  exists f weak, find_file G a = Some f /\ In (b, true, weak) (vf_imports f).
+  exists f, find_file G a = Some f /\ In (b, true) (vf_imports f).
 
 (* paths of public imports that avoid the files in S (S = [] gives the public closure) *)
 Inductive reach (G : graph) (S : list N) : N -> N -> Prop :=
@@ -108,14 +110,12 @@ Fixpoint nodupN (l : list N) : bool :=
   match l with [] => true | x :: r => negb (memN x r) && nodupN r end.
 Definition graph_ok (G : graph) : bool :=
   nodupN (map vf_path G) &&
-  forallb (fun f => forallb (fun pi => match find_file G (fst (fst pi)) with Some _ => true | None => false end)
+  forallb (fun f => forallb (fun pi => match find_file G (fst pi) with Some _ => true | None => false end)
                             (vf_imports f)) G.
 
 (* the same graph with every IsWeak flag cleared (used to state that the flag is irrelevant) *)
-Definition unweak_imps (l : list (N * bool * bool)) : list (N * bool * bool) :=
-  map (fun i => (fst (fst i), snd (fst i), false)) l.
 Definition unweak_file (f : vfile) : vfile :=
-  mkV (vf_path f) (unweak_imps (vf_imports f)) (vf_names f) (vf_exts f).
+  mkV (vf_path f) (vf_imports f) (vf_names f) (vf_exts f) [].
 Definition unweak (G : graph) : graph := map unweak_file G.
 
 (* ---- correspondence ---- *)
